@@ -228,7 +228,9 @@ class Impl:
                 db.update_xyz(make_carrier(op[1], op[4] if len(op) > 4 else None), tablename=op[2], **dict(op[3])); return ['OK']
             if k == 'update_column':
                 car = op[5] if len(op) > 5 else None
-                db.update_column(op[1], make_carrier(op[2], car), index=op[3], tablename=op[4]); return ['OK']
+                icar = op[6] if len(op) > 6 else None     # the index may itself be carried by a NumPy integer array / scalars
+                index = make_carrier(op[3], icar) if op[3] is not None else None
+                db.update_column(op[1], make_carrier(op[2], car), index=index, tablename=op[4]); return ['OK']
             if k == 'add_column':
                 db.add_column(op[1], coltype=op[2], value=op[3], tablename=op[4]); return ['OK']
             raise ValueError(k)
